@@ -5,6 +5,10 @@ claim("C17",
       "who-may-call: reachability in a keto-specific call graph (static + class-hierarchy invokes + traced function values) from the derived read/syntax entry table to the derived set of write-statement sites, with edges guarded by Mapper.ReadOnly==false removed after proving the flag is fixed by construction",
       "Decides that no write statement is reachable from any read or syntax entry point, for every registered route and gRPC method; does not decide side effects inside the driver. Right level: the property is a who-may-call fact visible in the call graph.")
 
-for p in ["C01","C02","C03","C04","C05","C06","C07","C08","C09","C11","C12","C13","C14","C15","C16","C18","C19"]:
+claim("C15",
+      "CFG path counting of result deliveries per CheckFunc (exactly one on every return path); channel capacity vs abandonable receivers; counted-drain idiom check on the checkgroup consumer; classification of every blocking channel operation; lexicographic (guarded depth, AST descent) termination certificates for every recursive SCC of the engine's static call graph",
+      "Decides delivery, channel-capacity, drain, cancellability-class and termination-certificate obligations for every CheckFunc, channel and recursive cycle of the check engine; does not decide the numeric bound on storage operations or wall-clock promptness. Right level: goroutine leaks, hangs and unbounded recursion here are path/shape facts of the code.")
+
+for p in ["C01","C02","C03","C04","C05","C06","C07","C08","C09","C11","C12","C13","C14","C16","C18","C19"]:
     na(p, NOTBUILT)
 na("C10", "semantic equivalence between the parser's output and TypeScript's grammar over all programs: precedence/associativity is not a code shape every correct parser shares; no sound structural necessary condition found (and the property is known to be violated: a||b&&c parses as (a||b)&&c), so a static green light would be misleading")
